@@ -386,7 +386,7 @@ def audit_axioms(mod: str, names: list[str]) -> dict[str, list[str]]:
 
 def driver(lines: list[str], timeout=1200) -> list[str]:
     """Pipe operations to the Lean model driver; one output line per input line."""
-    rc, out = lake(["build", "GettsimVerif.Driver"])
+    rc, out = lake(["build", "GettsimVerif.DriverOps"])
     if rc != 0:
         raise RuntimeError("Lean driver does not build:\n" + out[-3000:])
     p = subprocess.run(["lake", "env", "lean", "--run", "Driver.lean"], cwd=LEAN,
